@@ -279,6 +279,9 @@ func init() {
 				}
 				di := c.Choose(nd)
 				c.Done()
+				if nApps >= 2 && !x.Thorough() && di%4 != 0 {
+					return // quick tier: two applications on every fourth document (the thorough tier takes them all)
+				}
 				stmts := []ref.Node{rassign("t1", t1), rassign("t2", t2)}
 				switch comp {
 				case 0:
